@@ -185,7 +185,7 @@ func H_C22_stalled_query_starves_no_one() {
 	ra, err := b.Query(vpNewCtx(nil), NewQuery().Field("f").Build())
 	vpAssert(err == nil, "C20: Query failed")
 	vpQuiesce() // query A has filled the cursor buffer and its workers are parked
-	vpAssert(len(ra.rowChan) == queryRowBatchBuffer, "harness: query A did not fill its cursor buffer")
+	vpAssert(len(ra.rowChan) == queryRowBatchBuffer, "C22: a query with matching rows and the whole budget to itself stopped before its cursor buffer was full (its own stages starve each other of query slots)")
 	vpAssert(len(b.querySemaphore) == 0, "C22: a query whose consumer stopped reading keeps query slots")
 	rb, err := b.Query(vpNewCtx(nil), NewQuery().Field("f").Build())
 	vpAssert(err == nil, "C20: Query failed")
@@ -221,7 +221,7 @@ func H_C22_stalled_query_over_many_files_starves_no_one() {
 	ra, err := b.Query(vpNewCtx(nil), NewQuery().Field("f").Build())
 	vpAssert(err == nil, "C20: Query failed")
 	vpQuiesce()
-	vpAssert(len(ra.rowChan) == queryRowBatchBuffer, "harness: query A did not fill its cursor buffer")
+	vpAssert(len(ra.rowChan) == queryRowBatchBuffer, "C22: a query with matching rows and the whole budget to itself stopped before its cursor buffer was full (its own stages starve each other of query slots)")
 	vpAssert(len(b.querySemaphore) == 0, "C22: a query whose consumer stopped reading keeps query slots (a worker is blocked while holding one)")
 	rb, err := b.Query(vpNewCtx(nil), NewQuery().Field("f").Build())
 	vpAssert(err == nil, "C20: Query failed")
